@@ -3,6 +3,8 @@ from props import parser_ob
 def obligations():
     parser_ob.ACCEPT_KEYS = {'lossy-tree', 'bad-root', 'diag-range'}
     obs = parser_ob.obligations_seq('O12.4') + parser_ob.obligations_templates('O12.4')
+    from props import selftest_ob
+    obs += selftest_ob.parser_obligations('O12.0')
     try:
         from props import e1_obs
         obs += e1_obs.c12_obligations()
